@@ -9,7 +9,7 @@ ID = "C18"
 LEVEL = "fault_enumeration"
 RULE = ("trees with two groups in nested directories and names with spaces x DIR in {outside the tree, inside the scanned "
         "tree, on another device, relative, relative with `move` started from another directory than `group`, relative with a '..' that follows a symlinked component, absolute, with trailing slash} x pre-population of the target {nothing, "
-        "colliding file, colliding directory, colliding dangling symlink, colliding symlink to a file, colliding named pipe, the (empty) parent directories of every destination already present next to an unrelated file and an unrelated empty directory} (plain runs); and "
+        "colliding file, colliding directory, colliding dangling symlink, colliding symlink to a file, colliding named pipe, a hard link of the source itself at the destination, the destination's parent being a symlink to the source's directory, the (empty) parent directories of every destination already present next to an unrelated file and an unrelated empty directory} (plain runs); and "
         "for the same-device and other-device targets, empty and colliding: EVERY event k of the recorded mutating-call "
         "history with a SIGKILL before k and with call k failing with EXDEV, EIO, ENOSPC (thorough: + EPERM, EACCES). "
         "Oracle: target = DIR/<absolute source path without the leading '/'>, distinct targets, parents created, bytes "
@@ -29,7 +29,7 @@ TREE = [
     {"p": "r/m/caf\udce9", "k": "file", "c": ["base", 300, 3]},
 ]
 PLACEMENTS = ["outside", "inside", "other_device", "relative", "relative_other_cwd", "dotdot_through_symlink", "trailing_slash", "other_mount"]
-PREPOP = ["empty", "file", "dir", "dangling_symlink", "symlink_to_file", "fifo", "empty_dirs"]
+PREPOP = ["empty", "file", "dir", "dangling_symlink", "symlink_to_file", "fifo", "empty_dirs", "hardlink_of_source", "symlinked_parent"]
 
 
 def prepare(tier):
@@ -144,6 +144,18 @@ def _evaluate(case):
                         f.write(b"inner")
                 elif pp == "fifo":
                     os.mkfifo(tp)          # a special file (named pipe) in the way
+                elif pp == "hardlink_of_source":
+                    # the entry in the way is another name of the very file that is to be moved (same inode)
+                    try:
+                        os.link(collide, tp)
+                    except OSError:        # other device: an ordinary file instead
+                        with open(tp, "wb") as f:
+                            f.write(b"pre-existing file")
+                elif pp == "symlinked_parent":
+                    # the destination's parent directory under DIR is a symlink to the source's directory: the
+                    # destination path names the source itself
+                    os.rmdir(os.path.dirname(tp))
+                    os.symlink(os.path.dirname(collide), os.path.dirname(tp))
                 elif pp == "dangling_symlink":
                     os.symlink(outside_victim, tp)
                 elif pp == "symlink_to_file":
@@ -182,7 +194,11 @@ def _evaluate(case):
                     viol.append(dict(feat, kind="bytes_lost", detail="%s: %s is neither complete at the source nor at %s (%s / %s)" % (ctx, p, tp, a_src, a_tgt)))
                 if fault is None:
                     collides = (tp in pre_t) or os.path.lexists(tp) and tp in pre_lex
-                    if p == collide and case["prepop"] not in ("empty", "empty_dirs"):
+                    in_the_way = p == collide
+                    if case["prepop"] == "symlinked_parent":
+                        # every source below the directory the symlink points to finds itself at its destination
+                        in_the_way = tp.startswith(os.path.dirname(tdir + collide) + "/")
+                    if in_the_way and case["prepop"] not in ("empty", "empty_dirs"):
                         if not src_ok:
                             viol.append(dict(feat, kind="collision_source_removed", detail="%s: %s collided with an existing entry but is gone" % (ctx, p)))
                         elif not any("already exists" in w or os.path.basename(p) in w for w in D.warnings(res["err"])):
